@@ -624,6 +624,19 @@ RULES = {
     "R3dp": Rule("R3dp", "&self.data + 1u32 -> Add::add(&self.data, 1u32)", "& self . data + 1u32", "Add :: add ( & self . data , 1u32 )"),
     "R3dm": Rule("R3dm", "&self.data - 1u32 -> Sub::sub(&self.data, 1u32)", "& self . data - 1u32", "Sub :: sub ( & self . data , 1u32 )"),
     "R3ng": Rule("R3ng", "-BigInt::X(..) -> Neg::neg(BigInt::X(..))", "- BigInt :: $f ( $$a )", "Neg :: neg ( BigInt :: $f ( $$a ) )"),
+    "R10rv": Rule("R10rv", "for x in S { BODY } where S stands for slice.iter_mut().rev() (MODEL of the monomorphic instance I = Rev<IterMut<u8>>: the iterator yields the slice's elements last to first) -> { let mut i__ = S.len(); while i__ > 0 { i__ -= 1; let x = &mut S[i__]; BODY } }",
+                 "for $x in $s { $$body }",
+                 "{ let mut i__ = $s . len ( ) ; while i__ > 0 { i__ -= 1 ; let $x = & mut $s [ i__ ] ; $$body } }"),
+    "R31": Rule("R31", "twos_complement(digits.iter_mut().rev()) -> twos_complement_rev(digits)  (call of the instance I = Rev<IterMut<u8>>, modelled by R10rv)",
+                "twos_complement ( digits . iter_mut ( ) . rev ( ) )", "twos_complement_rev ( digits )"),
+    "R3dz": Rule("R3dz", "d.is_zero() (d: &mut u8, num_traits::Zero for u8: `*self == 0`) -> (*d == 0)", "d . is_zero ( )", "( * d == 0 )"),
+    "R30a": Rule("R30a", "bytes.iter().rev().skip(1).all(Zero::is_zero) -> __all_zero_but_last(&bytes)  (std iterator adapters: every element except the last one is zero)",
+                 "bytes . iter ( ) . rev ( ) . skip ( 1 ) . all ( Zero :: is_zero )", "__all_zero_but_last ( & bytes )"),
+    "R30b": Rule("R30b", "bytes.iter().skip(1).all(Zero::is_zero) -> __all_zero_but_first(&bytes)  (std iterator adapters: every element except the first one is zero)",
+                 "bytes . iter ( ) . skip ( 1 ) . all ( Zero :: is_zero )", "__all_zero_but_first ( & bytes )"),
+    "R30c": Rule("R30c", "bytes.last().cloned().unwrap_or(0) -> __last_or_zero(&bytes)", "bytes . last ( ) . cloned ( ) . unwrap_or ( 0 )", "__last_or_zero ( & bytes )"),
+    "R30d": Rule("R30d", "bytes.first().cloned().unwrap_or(0) -> __first_or_zero(&bytes)", "bytes . first ( ) . cloned ( ) . unwrap_or ( 0 )", "__first_or_zero ( & bytes )"),
+    "R30e": Rule("R30e", "Vec::from(digits) (digits: &[u8]) -> digits.to_vec()  (std: `impl From<&[T]> for Vec<T>` is `s.to_vec()`)", "Vec :: from ( digits )", "digits . to_vec ( )"),
     "R16v": Rule("R16v", "Ord::cmp(&bit, &trailing_zeros) -> __u64_cmp(bit, trailing_zeros)  (std: total order on u64)",
                  "Ord :: cmp ( & bit , & trailing_zeros )", "__u64_cmp ( bit , trailing_zeros )"),
     "R0p": Rule("R0p", "crate::big_digit::BITS -> big_digit::BITS  (path of the same constant inside the unit's module)",
